@@ -313,6 +313,120 @@ class _ForwardSubst:
         return state['done']
 
 
+class _PureLocals:
+    """A local that is stored exactly once in its function by `x = <pure expression>` - names,
+    attribute chains, constants, arithmetic/comparison/boolean operators, no calls or subscripts -
+    is replaced by that expression at its uses when the expression still denotes the same value
+    there: every name in it is a parameter or another single-store local, no attribute it reads is
+    stored in the function between the definition and the use, and definition and use are not
+    separated by a loop back-edge.  Aliases (`coordinator = self._transfer_coordinator`), hoisted
+    flags (`is_last = i == n - 1`) and hoisted sub-expressions read as the code without them."""
+    PURE = (ast.Name, ast.Attribute, ast.Constant, ast.BinOp, ast.Compare, ast.BoolOp, ast.UnaryOp,
+            ast.operator, ast.cmpop, ast.boolop, ast.unaryop, ast.expr_context)
+
+    def run(self, tree):
+        for fn in [n for n in ast.walk(tree) if isinstance(n, (ast.FunctionDef, ast.AsyncFunctionDef))]:
+            for _ in range(60):
+                if not self._function(fn):
+                    break
+        return tree
+
+    def _function(self, fn):
+        import copy
+        params = {a.arg for a in ast.walk(fn.args) if isinstance(a, ast.arg)}
+        order = {}
+        stack, i = [fn], 0
+        while stack:
+            n = stack.pop()
+            order[id(n)] = i
+            i += 1
+            stack.extend(reversed(list(ast.iter_child_nodes(n))))
+        stores, loads, nested = {}, {}, set()
+        attr_stores = {}
+        parent = {}
+        for p in ast.walk(fn):
+            for ch in ast.iter_child_nodes(p):
+                parent[id(ch)] = p
+
+        def scan(node, in_nested):
+            for ch in ast.iter_child_nodes(node):
+                nest = in_nested or isinstance(ch, (ast.FunctionDef, ast.AsyncFunctionDef, ast.Lambda, ast.ClassDef, ast.ListComp, ast.SetComp, ast.DictComp, ast.GeneratorExp))
+                if isinstance(ch, ast.Name):
+                    if nest:
+                        nested.add(ch.id)
+                    (loads if isinstance(ch.ctx, ast.Load) else stores).setdefault(ch.id, []).append(ch)
+                elif isinstance(ch, ast.Attribute) and not isinstance(ch.ctx, ast.Load):
+                    attr_stores.setdefault(ch.attr, []).append(ch)
+                elif isinstance(ch, (ast.Global, ast.Nonlocal)):
+                    nested.update(ch.names)
+                elif isinstance(ch, ast.ExceptHandler) and ch.name:
+                    stores.setdefault(ch.name, []).append(ch)
+                scan(ch, nest)
+        scan(fn, False)
+
+        def loops_of(n):
+            out = []
+            while id(n) in parent:
+                n = parent[id(n)]
+                if isinstance(n, (ast.For, ast.While, ast.AsyncFor)):
+                    out.append(id(n))
+            return out
+        single = {n for n, ss in stores.items() if len(ss) == 1 and n not in params and n not in nested}
+        changed = False
+        for name in sorted(single):
+            st = parent.get(id(stores[name][0]))
+            if not (isinstance(st, ast.Assign) and len(st.targets) == 1 and st.targets[0] is stores[name][0]):
+                continue
+            v = st.value
+            if isinstance(v, (ast.Constant, ast.Name)) and not isinstance(v, ast.Name):
+                continue  # plain constants keep their name (counters, sentinels)
+            if not all(isinstance(x, self.PURE) for x in ast.walk(v)):
+                continue
+            if any(isinstance(x, ast.Name) and not ((x.id in params and x.id not in stores) or x.id in single) for x in ast.walk(v)):
+                continue
+            if any(isinstance(x, ast.Name) and x.id == name for x in ast.walk(v)):
+                continue
+            uses = loads.get(name, [])
+            if not uses:
+                continue
+            dpos = order[id(st)]
+            read_attrs = {x.attr for x in ast.walk(v) if isinstance(x, ast.Attribute)}
+            ok = True
+            for u in uses:
+                upos = order[id(u)]
+                if upos < dpos or loops_of(u) != loops_of(st) and not set(loops_of(st)) <= set(loops_of(u)):
+                    ok = False
+                    break
+                for a in read_attrs:
+                    for s_ in attr_stores.get(a, []):
+                        sp = order[id(s_)]
+                        if dpos < sp < upos or (set(loops_of(s_)) & set(loops_of(u))):
+                            ok = False
+                if isinstance(parent.get(id(u)), (ast.Attribute, ast.Subscript)) and not isinstance(parent[id(u)].ctx, ast.Load) and not isinstance(v, (ast.Name, ast.Attribute)):
+                    ok = False
+            if not ok:
+                continue
+            for u in uses:
+                p = parent[id(u)]
+                for f_, val in ast.iter_fields(p):
+                    if val is u:
+                        setattr(p, f_, copy.deepcopy(v))
+                    elif isinstance(val, list):
+                        for k, e in enumerate(val):
+                            if e is u:
+                                val[k] = copy.deepcopy(v)
+            blk_owner = parent[id(st)]
+            for f_ in ('body', 'orelse', 'finalbody'):
+                b = getattr(blk_owner, f_, None)
+                if isinstance(b, list) and st in b:
+                    b.remove(st)
+                    if not b:
+                        b.append(ast.Pass())
+            changed = True
+            break  # positions / parents are stale: rescan
+        return changed
+
+
 class _StmtIfExp:
     """x = A if c else B   ->   if c: x = A  else: x = B          (statement level only)
     return A if c else B   ->   if c: return A  else: return B"""
@@ -448,6 +562,7 @@ def _as_load(t):
 
 def canonicalise(tree):
     if isinstance(tree, ast.Module):
+        tree = _PureLocals().run(tree)
         tree = _StmtIfExp().run(tree)
         tree = _CompToLoop().run(tree)
         tree = _ForwardSubst().run(tree)
